@@ -320,7 +320,7 @@ func (in *inliner) siteOfSimple(s ast.Stmt, enc *types.Signature) *site {
 			return nil
 		}
 		for _, l := range x.Lhs {
-			if _, isID := l.(*ast.Ident); !isID {
+			if !pureOperand(l) {
 				return nil
 			}
 		}
@@ -509,6 +509,7 @@ func (in *inliner) eligible(fn *types.Func, fd *ast.FuncDecl) string {
 		return "exported"
 	}
 	if in.keep != nil && in.keep(name) {
+		in.stats.Callees["(kept anchor) "+fn.FullName()]++
 		return "anchor"
 	}
 	sig := fn.Type().(*types.Signature)
